@@ -2023,7 +2023,13 @@ class WSGIRequest:
                     return self._stream.read(size)
 
         self.content = StreamWrapper(self._environ["wsgi.input"])
-        self.match_info = {"path_info": environ["PATH_INFO"]}
+        # PEP-3333 says PATH_INFO is decoded using iso-8859-1; re-decode it
+        # (without normalising), like path_from_environ() does.
+        self.match_info = {
+            "path_info": environ["PATH_INFO"]
+            .encode("iso-8859-1")
+            .decode(DEFAULT_ENCODING)
+        }
 
     @property
     def can_read_body(self):
